@@ -14,3 +14,9 @@ Theorem C09_lists ts p : parsed_of_tokens ts = Done p ->
   NoDup (pf_vars p) /\ Sorted le (pf_vars p) /\ (forall x, In x (pf_vars p) <-> In x (tok_vars ts)) /\
   pf_free p = filter (var_is_free (pf_form p)) (pf_vars p) /\ NoDup (pf_free p).
 Proof. exact (pf_vars_spec ts p). Qed.
+
+(** "x & exists x # x | y": x is free (outer occurrence) although also bound; y is free; in "exists x # x" nothing is *)
+Example C09_instance :
+  var_is_free (FBin BAnd (FVar 0) (FQuant QExists (0 :: nil) (FBin BOr (FVar 0) (FVar 1)))) 0 = true /\
+  var_is_free (FQuant QExists (0 :: nil) (FVar 0)) 0 = false.
+Proof. split; reflexivity. Qed.
